@@ -282,7 +282,7 @@ def ecef2geodetic(x: float, y: float, z: float, a: float = EARTH_EQUATOR_RADIUS,
     lon = np.arctan2(y, x)
     # Iteratively compute latitude
     delta = 1e-8
-    lat_old = 0
+    lat_old = np.inf     # Force at least one pass: N is only defined inside the loop
     lat = np.arctan2(z, (1-e2)*p)
     while abs(lat_old - lat) > delta:
         sin_lat = np.sin(lat)
